@@ -10,7 +10,12 @@ dst=/verif/seeded/$name
 mkdir -p "$dst"
 cp "$wt/.seed/patch.diff" "$dst/patch.diff"
 cp -r "$wt/.seed/demo" "$dst/" 2>/dev/null
+keep=$(python3 -c "import json;print(json.dumps(json.load(open('$dst/meta.json')).get('strengthened','')))" 2>/dev/null)
 cp "$wt/.seed/meta.json" "$dst/meta.json"
+[ -n "$keep" ] && [ "$keep" != '""' ] && python3 - "$dst/meta.json" "$keep" <<'PY'
+import json,sys
+m=json.load(open(sys.argv[1])); m['strengthened']=json.loads(sys.argv[2]); json.dump(m,open(sys.argv[1],'w'),indent=1)
+PY
 demo_dir=$(python3 -c "import json;print(json.load(open('$dst/meta.json')).get('demo_dir',''))")
 # only the `go test ...` part of demo_cmd is used (some seeds wrap it in cp/rm, which hides the exit status)
 demo_cmd=$(python3 -c "import json;print(json.load(open('$dst/meta.json')).get('demo_cmd',''))" | grep -o 'go test [^;&]*' | head -1)
